@@ -55,3 +55,24 @@ package converters
 //@   loop 1 invariant bytes == ncalls("invoke.ReadByte") && 0 <= bytes
 //@   loop 1 invariant result == dec(calllog("invoke.ReadByte", 0), bytes)
 //@   loop 1 invariant forall(k, 0, bytes, calllog("invoke.ReadByte", 0)[k] >= 0x80)
+
+// Invalidation bookkeeping: after a record is dropped from the table, the start of the free area is
+// not behind the start of that record (the record starts one header before its payload offset), and
+// the free size has grown by the record's size including its header. Compaction starts parsing at
+// freeStart, so it must never point into the middle of a record.
+// Assumed: the mutex and the bitmask iterator do not touch the cache file's bookkeeping.
+//@ extern (*sync.RWMutex).Lock(m)
+//@ extern (*sync.RWMutex).Unlock(m)
+//@ extern (github.com/spq/pkappa2/internal/tools/bitmask.LongBitmask).Next(bm, bit) ok
+//@   modifies *bit
+//@ extern (*github.com/spq/pkappa2/internal/tools/bitmask.LongBitmask).Set(bm, bit)
+//@   modifies bm.mask
+//@ func (*cacheFile).InvalidateChangedStreams
+//@   prop C15
+//@   nosafety
+//@   noframe
+//@   requires cachefile != nil && streams != nil
+//@   requires forall(uint64, k, 0, inf, implies(haskey(cachefile.streamInfos, k), cachefile.streamInfos[k].offset >= 8 && cachefile.streamInfos[k].offset < 4611686018427387904 && int(cachefile.streamInfos[k].size) < 1099511627776))
+//@   loop 1 invariant records_sane: forall(uint64, k, 0, inf, implies(haskey(cachefile.streamInfos, k), cachefile.streamInfos[k].offset >= 8 && cachefile.streamInfos[k].offset < 4611686018427387904 && int(cachefile.streamInfos[k].size) < 1099511627776))
+//@   loop 1 assume cachefile.freeSize >= 0 && cachefile.freeSize < 2305843009213693952
+//@   assert before call delete#1: free_start: cachefile.freeStart <= info.offset - 8
